@@ -3,7 +3,7 @@
 stdin: JSON list of jobs
   {"id", "vars": [variant...], "nullable": bool, "disc": {"mode": "none"|"complete"|"partial", "prop": str,
    "mapping": [[tag, variant index (1-based)], ...]}, "cases": [{"cid", "payload": tagged tree}],
-   "positions": ["top", "field", "list"]}
+   "positions": subset of ["top", "field", "list", "opt", "map", "rows"]}
 variant == {"k": "obj", "f": [ma, mb, mc]} (m in abs/opt/req/rnul, fields a, b, c, all string typed; rnul = required
            and nullable)   optional job key "history": {"vars": [...]} -> see run_history_job (adds "fresh" to the result)
          | {"k": "str"|"int"|"float"|"bool"} | {"k": "list"|"map", "of": "str"|"int"} | {"k": "anymap"}
@@ -201,14 +201,24 @@ def kind_of_value(r: Any, vts: list[Any]) -> tuple[int, str]:
     return 0, "other:" + type(r).__name__
 
 
+def optional_holder(u: Any) -> type:
+    from typing import Optional
+
+    h = dataclasses.make_dataclass("HolderO", [("u", Optional[u], dataclasses.field(default=None))])
+    h.Meta = type("Meta", (), {"key_transform_with_load": {"u": "u"}, "key_transform_with_dump": {"u": "u"}})
+    return h
+
+
 def _cases(job: dict, u: Any, vts: list[Any]) -> list[dict]:
     holder = dataclasses.make_dataclass("Holder", [("u", u)])
     holder.Meta = type("Meta", (), {"key_transform_with_load": {"u": "u"}, "key_transform_with_dump": {"u": "u"}})
+    positions = job.get("positions", ["top", "field", "list"])
+    oholder = optional_holder(u) if "opt" in positions else None
     res = []
     for c in job["cases"]:
         payload = from_tree(c["payload"])
-        for pos in job.get("positions", ["top", "field", "list"]):
-            r = run_case(u, vts, holder, payload, pos)
+        for pos in positions:
+            r = run_case(u, vts, holder, payload, pos, oholder)
             r["cid"] = c["cid"]
             r["pos"] = pos
             res.append(r)
@@ -236,13 +246,24 @@ def run_history_job(job: dict) -> dict:
     return {"id": job["id"], "res": _cases(job, u2, vts2), "fresh": fresh}
 
 
-def run_case(u: Any, vts: list[Any], holder: type | None, payload: Any, pos: str) -> dict:
+def run_case(u: Any, vts: list[Any], holder: type | None, payload: Any, pos: str, oholder: type | None = None) -> dict:
     try:
         if pos == "top":
             r = structure_from_dict(payload, u)
         elif pos == "field":
             h = structure_from_dict({"u": payload}, holder)
             r = h.u
+        elif pos == "opt":  # `u: <union> | None = None`, the shape of a non-required property
+            h = structure_from_dict({"u": payload}, oholder or optional_holder(u))
+            r = h.u
+        elif pos == "map":
+            m = structure_from_dict({"k": payload}, Dict[str, u])
+            r = m["k"]
+        elif pos == "rows":
+            rows = structure_from_dict([[payload]], List[List[u]])
+            if not (isinstance(rows, list) and len(rows) == 1 and isinstance(rows[0], list) and len(rows[0]) == 1):
+                return {"out": "ok", "chosen": 0, "ckind": "other:listshape", "reenc": to_tree(rows), "ekind": "-"}
+            r = rows[0][0]
         else:
             lst = structure_from_dict([payload], List[u])
             if not isinstance(lst, list) or len(lst) != 1:
